@@ -583,6 +583,8 @@ bool PedersenVSS::Share
 		mpz_set_ui(rhs, n); // broadcast end marker
 		rbc->Broadcast(rhs);
 		complaints.clear(), complaints_from.clear(); // reset for final complaint resolution
+		if (complaint)
+			complaints_from.push_back(i); // the dealer also answers my own complaint
 		for (size_t j = 0; j < n; j++)
 		{
 			if ((j != i) && (j != dealer))
